@@ -92,10 +92,25 @@ def main(tier):
     pipecheck.run_traces(ck, jobs, out, precs=precs, variant="asan", accept_abort=True)
     # too small estimates for U / L subscripts: the library must stop with its diagnostic
     small = []
-    for i in range(12 if quick else 80):
-        j = pipe.random_job(rng, 1000 + i, out, nmax=40, threads=(1, 2, 4), kinds=("random", "grid", "banded"))
-        j.update(fill7=rng.choice([1, 2, 3]) if i % 2 else 0, fill8=rng.choice([1, 2]) if i % 2 == 0 else 0, timeout=120)
+    for i in range(24 if quick else 120):
+        j = pipe.random_job(rng, 1000 + i, out, nmax=40, threads=(1, 2, 4, 4, 8), kinds=("random", "grid", "banded"))
+        # sp_ienv(7) / sp_ienv(8): a positive value is the array length itself (the first request already fails), a negative one a multiple of nnz(A)
+        # (the arrays run out somewhere in the middle of the factorization, while several workers are allocating)
+        j.update(fill7=rng.choice([1, 2, 3, 40, -1, -1, -2]) if i % 2 else 0, fill8=rng.choice([1, 2, 30, -1, -1]) if i % 2 == 0 else 0, timeout=120)
+        if j.get("P", 1) >= 2 and i % 4 < 3:
+            # threads delayed right before they take a lock: a capacity test made outside the critical section that bumps the counter
+            # (check-then-act) lets two requests that each fit alone pass together -- the overflow is then a write past ucol / usub / lsub
+            j.update(focus="lock", focuspct=rng.choice([40, 60]), focusus=rng.choice([100, 300]))
         j["id"] = "sm%d" % i
+        j["out"] = os.path.join(out, j["id"] + ".ndjson")
+        small.append(j)
+    # the same on larger grids with 8 workers: many allocation requests arrive together near the end of the (too small) U / L-subscript arrays
+    for i in range(12 if quick else 60):
+        k = rng.randint(14, 22)
+        j = {"id": "smg%d" % i, "gen": "grid", "kl": k, "n": k * k, "order": rng.choice([-1, 1, 2]), "P": 8, "ps": rng.choice([1, 2, 4]), "relax": rng.choice([1, 2, 4]),
+             "maxsuper": rng.choice([4, 8]), "pert": 0, "seed": rng.randrange(1, 10 ** 6), "vstyle": 0, "nrhs": 1, "timeout": 240,
+             "focus": rng.choice(["lock", "lockpair"]), "focuspct": rng.choice([40, 60, 80]), "focusus": rng.choice([100, 200, 400])}
+        j.update(fill7=-rng.choice([1, 1, 2]) if i % 3 else 0, fill8=-1 if i % 3 == 0 else 0)
         j["out"] = os.path.join(out, j["id"] + ".ndjson")
         small.append(j)
     st = pipe.run_jobs(small, out, variant="asan")
